@@ -207,7 +207,7 @@ _ADD7 = {
  "C10": "; callbacks that panic: every subset of three tasks due in one tick panics, every key (of that tick and of later ticks, on 2 and 5 slots) is still handed to the execute function exactly once",
  "C11": "; bodies returning the package's own sentinel errors (ErrNotFound, a wrapped ErrNotFound, sql.ErrTxDone, context.Canceled): rolled back and handed back like any other error",
  "C12": "; BITPOS/BITCOUNT with end = -1 for bit 0 and 1 on an all-ones value, a mixed value and an absent key (an explicit end is not the same command as no end)",
- "C07": "; a context that is never done given before or after the worker bound (each option leaves the other alone)",
+ "C07": "; a context that is never done given before or after the worker bound (each option leaves the other alone); a reducer that writes its value and panics afterwards (the panic must reach the caller; known finding)",
  "C09": "; the clock moving on between two reads inside one Add (clock reads as environment choices, one deviation per step): an add is attributed to any bucket between the one current when it began and when it returned, nothing older than the window is seen afterwards",
  "C14": "; in-flight count back at zero after a completion with every gRPC code",
  "C16": "; the SQL bulk inserter: the row that completes a batch of maxBulkRows flushes it without a tick, no statement carries more rows, every row sent exactly once in order after Flush",
